@@ -31,6 +31,7 @@ type Engine struct {
 	mu                       sync.Mutex
 	LoadMs                   float64
 	Overlay                  map[string][]byte
+	Baseline                 map[string]bool // names of the obligations discharged on the unchanged tree (set by `check`)
 }
 
 func NewEngine(repo, specs string, timeoutMs int, overlay map[string][]byte) (*Engine, error) {
